@@ -23,25 +23,40 @@ enum class validation_result : uint8_t {
 
 inline int pop_front_unichar(std::string_view& s) {
     // assuming that s.length() is > 0
+    // returns -1 and consumes nothing if s does not start with a
+    // well-formed UTF-8 sequence (Unicode Standard, Table 3-7)
 
-    int n = s[0] & 0xF0;
+    auto is_cont = [&s](size_t i) { return (s[i] & 0xC0) == 0x80; };
+
+    auto lead = static_cast<unsigned char>(s[0]);
     int ch = -1;
 
-    if ((n & 0x80) == 0) {
+    if (lead < 0x80) {
         ch = s[0];
         s.remove_prefix(1);
     }
-    else if ((n == 0xC0 || n == 0xD0) && s.size() > 1) {
+    // 0xC0 and 0xC1 can only start over-long forms
+    else if (lead >= 0xC2 && lead <= 0xDF && s.size() > 1 && is_cont(1)) {
         ch = ((s[0] & 0x1F) << 6) | (s[1] & 0x3F);
         s.remove_prefix(2);
     }
-    else if ((n == 0xE0) && s.size() > 2) {
-        ch = ((s[0] & 0x1F) << 12) | ((s[1] & 0x3F) << 6) | (s[2] & 0x3F);
+    else if (
+        (lead & 0xF0) == 0xE0 && s.size() > 2 && is_cont(1) && is_cont(2)
+    ) {
+        ch = ((s[0] & 0x0F) << 12) | ((s[1] & 0x3F) << 6) | (s[2] & 0x3F);
+        if (ch < 0x800) // over-long form
+            return -1;
         s.remove_prefix(3);
     }
-    else if ((n == 0xF0) && s.size() > 3) {
-        ch = ((s[0] & 0x1F) << 18) | ((s[1] & 0x3F) << 12) |
+    // 0xF5...0xFF never appear in UTF-8
+    else if (
+        lead >= 0xF0 && lead <= 0xF4 && s.size() > 3 &&
+        is_cont(1) && is_cont(2) && is_cont(3)
+    ) {
+        ch = ((s[0] & 0x07) << 18) | ((s[1] & 0x3F) << 12) |
             ((s[2] & 0x3F) << 6) | (s[3] & 0x3F);
+        if (ch < 0x10000 || ch > 0x10FFFF) // over-long form, beyond Unicode
+            return -1;
         s.remove_prefix(4);
     }
 
